@@ -22,8 +22,9 @@ func RemoveTempName(in string) string {
 	return in
 }
 
+// dotEscaper escapes the characters that structure a record label or end a quoted string
+var dotEscaper = strings.NewReplacer("<", "\\<", ">", "\\>", "{", "\\{", "}", "\\}", "|", "\\|", "\"", "\\\"")
+
 func EscapeDotGraph(in string) string {
-	res := strings.ReplaceAll(in, "<", "\\<")
-	res = strings.ReplaceAll(res, ">", "\\>")
-	return res
+	return dotEscaper.Replace(in)
 }
